@@ -104,6 +104,29 @@ M("C15", "plain_clear_writes", "api/io/section_output.py",
   "            or not self.supports_ansi()\n            and not self._formatter.force_ansi()\n        ):\n            return\n\n        if lines:",
   "        ):\n            return\n\n        if lines:", expect="silent")  # equivalent: plain sections never record content
 
+# ---- C18 ------------------------------------------------------------------------------------
+M("C18", "eof_swallowed", "ui/components/question.py",
+  "            except _Aborted:\n                # There is nobody left to ask again\n                raise\n", "")
+M("C18", "negative_index_accepted", "ui/components/choice_question.py",
+  "                    if 0 <= value < len(self._values):", "                    if value < len(self._values):")
+M("C18", "index_before_value", "ui/components/choice_question.py",
+  "            try:\n                result = self._values.index(value)\n                result = self._values[result]\n            except ValueError:",
+  "            try:\n                if value.isdigit() and int(value) < len(self._values):\n                    raise ValueError()\n                result = self._values.index(value)\n                result = self._values[result]\n            except ValueError:")
+M("C18", "attempt_off_by_one", "ui/components/question.py",
+  "        while attempts is None or attempts:", "        while attempts is None or attempts >= 0:")
+M("C18", "error_printed_twice", "ui/components/question.py",
+  "            if error is not None:\n                self._write_error(io, error)\n",
+  "            if error is not None:\n                self._write_error(io, error)\n                if attempts == 1:\n                    self._write_error(io, error)\n")
+M("C18", "confirm_default_false_inverted", "ui/components/confirmation_question.py",
+  "            return answer and answer_is_true", "            return answer and not answer_is_true")
+M("C18", "noninteractive_prompts", "ui/components/question.py",
+  "        if not io.is_interactive():\n            return self.default",
+  "        if not io.is_interactive():\n            self._write_prompt(io)\n            return self.default")
+M("C18", "multi_returns_indices_on_dup", "ui/components/choice_question.py",
+  "            multiselect_choices.append(result)", "            multiselect_choices.append(result if len(multiselect_choices) < 2 else value)")
+M("C18", "empty_not_default", "ui/components/question.py",
+  "        if len(ret) <= 0:\n            ret = self._default", "        if len(ret) < 0:\n            ret = self._default")
+
 
 def run_one(m, runs):
     prop, name, path, old, new, expect = m
